@@ -1,0 +1,74 @@
+//go:build verif
+// +build verif
+
+package fragmentation
+
+import "unsafe"
+
+// Verification hooks (build tag verif). verifYield is called between the
+// three critical sections of Fragmentation.Process: point 1 after the
+// lookup/create section (f.mu released, before r.process), point 2 after
+// r.process (before the accounting section takes f.mu again). A conformance
+// harness installs a gate scheduler with VerifSetHook before any goroutine
+// uses a Fragmentation. Without a hook installed it is a nil check.
+var verifHook func(point int)
+
+func verifYield(point int) {
+	if h := verifHook; h != nil {
+		h(point)
+	}
+}
+
+// VerifSetHook installs (or, with nil, removes) the hook.
+func VerifSetHook(h func(point int)) { verifHook = h }
+
+// VerifHole is the projection of one entry of a reassembler's hole list.
+type VerifHole struct {
+	First, Last int
+	Deleted     bool
+}
+
+// VerifReassembler is the projection of one reassembler.
+type VerifReassembler struct {
+	ID      uint32
+	Ptr     uintptr // identity (address); only meaningful for equality while referenced
+	Holes   []VerifHole
+	Deleted int
+	Heap    [][2]int // (offset, size) of every stored fragment, in heap-array order
+	Done    bool
+	Size    int
+}
+
+// VerifFragState is the projection of a Fragmentation: memory counter and
+// the reassemblers in LRU-list order (front = most recently created).
+type VerifFragState struct {
+	Size  int
+	List  []VerifReassembler
+	InMap int // len(f.reassemblers)
+}
+
+// VerifState returns the projection of f. It takes the same locks as the
+// package itself, so it must not be called from inside a hook of a goroutine
+// that holds them (the hook points hold none).
+func VerifState(f *Fragmentation) VerifFragState {
+	f.mu.Lock()
+	defer f.mu.Unlock()
+	st := VerifFragState{Size: f.size, InMap: len(f.reassemblers)}
+	for r := f.rList.Front(); r != nil; r = r.Next() {
+		st.List = append(st.List, verifReassembler(r))
+	}
+	return st
+}
+
+func verifReassembler(r *reassembler) VerifReassembler {
+	r.mu.Lock()
+	defer r.mu.Unlock()
+	v := VerifReassembler{ID: r.id, Ptr: uintptr(unsafe.Pointer(r)), Deleted: r.deleted, Done: r.done, Size: r.size}
+	for _, h := range r.holes {
+		v.Holes = append(v.Holes, VerifHole{int(h.first), int(h.last), h.deleted})
+	}
+	for _, fr := range r.heap {
+		v.Heap = append(v.Heap, [2]int{int(fr.offset), fr.vv.Size()})
+	}
+	return v
+}
